@@ -197,6 +197,47 @@ def dir_output_family():
     return probs
 
 
+def create_failure_corner(viol, stats):
+    """Fault corner: the script succeeds and wrote to stdout, but redo cannot create `$3` to copy the output into (disk
+    full: ENOSPC injected by strace on the openat of <target>.redo.tmp).  The command fails; the property says what a
+    failing command leaves behind: the previous target as it was, no temporary file.  Also compared with the Commit model
+    (`createFails`)."""
+    pr = Project()
+    try:
+        pr.write("t.out.do", "echo OLD\n")
+        rc, o, e = pr.run(["redo", "t.out"])
+        pr.write("t.out.do", "echo NEW\n")
+        trace = pr.path("strace.txt")
+        rc, o, e = pr.run(["strace", "-f", "-o", trace, "-e", "trace=openat", "-e", "inject=openat:error=ENOSPC", "-P", pr.path("t.out.redo.tmp"),
+                           "redo", "--no-pretty", "--no-color", "--no-status", "t.out"], timeout=60)
+        injected = sum(1 for l in open(trace, errors="replace") if "ENOSPC" in l) if os.path.exists(trace) else 0
+        stats["create_failure_injected"] = injected
+        if not injected:
+            return                      # strace could not inject here: nothing observed
+        dm = re.search(r"@@REDO:done:\d+:[0-9.]+@@ (-?\d+) t\.out", e)
+        done = int(dm.group(1)) if dm else None
+        m = run_lines(MODEL, ["commit-decide f,1 f,1 4 0 0 0 1"])[0]
+        mm = re.match(r"ops=(\S*) rv=(-?\d+) ok=(\w+)", m)
+        target = pr.read("t.out")
+        tmp_left = os.path.exists(pr.path("t.out.redo.tmp"))
+        problems = []
+        if rc == 0:
+            problems.append("the command exited 0 although the output could not be installed")
+        if target != b"OLD\n":
+            problems.append("the previous target content was not left as it was: t.out %s" % ("was removed" if target is None else "holds %r" % target))
+        if tmp_left:
+            problems.append("a temporary output file is left behind")
+        model_unlinks = "unlinkTarget" in (mm.group(1).split(",") if mm else [])
+        if (target is None) != model_unlinks and not problems:
+            problems.append("model and implementation disagree on the create-failure corner (model %s)" % m)
+        if problems:
+            p = write_replay("C04", "create-failure", dict(kind="impl-monitor", problems=problems, rc=rc, done=done, model=m, stderr=e[-600:],
+                                                           replay="t.out.do: echo OLD; redo t.out; t.out.do: echo NEW; strace -f -e trace=openat -e inject=openat:error=ENOSPC -P $PWD/t.out.redo.tmp redo t.out"))
+            viol.append(Violation("C04", p, "redo cannot create $3 for the script's stdout (ENOSPC): " + "; ".join(problems)))
+    finally:
+        pr.destroy()
+
+
 def run(ctx):
     rng = random.Random(ctx["seed"])
     viol = ctx.setdefault("violations", [])
@@ -290,8 +331,11 @@ def run(ctx):
         if probs:
             pth = write_replay("C04", "dir-output", dict(kind="impl-monitor", problems=probs, scenario='d.do: mkdir "$3"; echo x >"$3/file"; exit 7 — then the script is repaired'))
             viol.append(Violation("C04", pth, "script %s: exit %s%s, temporary output left: %s" % (probs[0]["how"], probs[0]["rc"], " (internal abort)" if probs[0].get("panicked") else "", probs[0].get("tmp_left"))))
+    fault = {}
+    if not viol:
+        create_failure_corner(viol, fault)
     return dict(evaluations=len(results), distinct_nontrivial=len(set(reqs)),
                 rule="behaviour product stdout{0,1,64K} x $3{none,1,64K,empty,created-then-deleted} x $1{untouched,written,written with an older mtime,deleted} x exit{0,1,7,SIGKILL at start,SIGKILL after output,SIGTERM at end} x prior{absent,generated} x stale tmp file{no,yes}, + target-is-a-non-empty-directory install failures (%s); distinct = distinct model inputs reached" % ("all %d" % len(full) if thorough else "seeded sample of 140 + 9 corner cases of %d" % len(full)),
                 samples=samples, exhaustive=thorough, disagreements_checked=len(results),
                 distribution=dict(cases=len(results), distinct_op_sequences=len(nontrivial),
-                                  successes=sum(1 for r in results if r["rc"] == 0), failures=sum(1 for r in results if r["rc"] != 0)))
+                                  successes=sum(1 for r in results if r["rc"] == 0), failures=sum(1 for r in results if r["rc"] != 0), **fault))
